@@ -91,6 +91,11 @@ func (c *client) PushBlob(ctx context.Context, repo string, desc ociregistry.Des
 	// See:
 	//	https://github.com/distribution/distribution/issues/4065
 	//	https://github.com/golang/go/issues/63152
+	if desc.Size < 0 {
+		// Note: net/http takes a negative ContentLength to mean "unknown"
+		// and would send whatever r holds.
+		return ociregistry.Descriptor{}, fmt.Errorf("negative descriptor size %d: %w", desc.Size, ociregistry.ErrSizeInvalid)
+	}
 	if desc.Size == 0 && r != nil {
 		// Nothing of r goes on the wire for a blob declared empty (see below),
 		// so make sure that there is nothing in it.
